@@ -10,17 +10,19 @@
                             (proved of [read_revisions] below, [C11_reader_sorted]);
     - [newer v all]       : non-checkpoint files with version > v, directory order;
     - [ooo_files fv lv revs all] : non-checkpoint files with fv <= version < lv and
-                            no revision ("out of order"), directory order;
+                            no completely applied revision -- never applied, or only
+                            partially ("out of order"), directory order;
+    - [done_rev revs v]   : some revision of version v is completely applied;
     - [result_files r]    : the files a decision names ([PFiles p] => p,
                             [PNonLinear s p] => s ++ p, otherwise none);
     - [finish p]          : [PNoPending] if p is empty, else [PFiles p].
 
-    The hypothesis "only the last revision may be partial" turned out to be needed
-    for one statement only ([C11_partial_not_last_except]); everything else holds
-    for every sorted table. *)
+    No statement needs "only the last revision may be partial": since the repair of
+    C11-nonlinear-partial-not-resumed a partially applied revision that is not the greatest
+    one is an out-of-order file ([C11_partial_not_last]). *)
 From Coq Require Import List NArith Bool Arith Sorted.
 From Atlas Require Import Base.Bytes Exec.ExecModel Exec.PendingModel Exec.RunModel Exec.PendingProofs
-  Exec.StatusModel Exec.StatusProofs.
+  Exec.StatusModel Exec.StatusProofs Exec.HistoryModel Exec.HistoryProofs.
 Import ListNotations.
 
 Section C11.
@@ -46,8 +48,13 @@ Theorem C11_ooo_spec :
   forall (fv lv : bytes) (revs : list rev) (all : list file) (f : file),
   In f (ooo_files fv lv revs all) <->
   In f all /\ f_ckpt f = false /\ bytes_leb fv (f_version f) = true /\
-  bytes_ltb (f_version f) lv = true /\ has_rev revs (f_version f) = false.
+  bytes_ltb (f_version f) lv = true /\ done_rev revs (f_version f) = false.
 Proof. exact (ooo_files_In hash). Qed.
+
+Theorem C11_done_rev_spec :
+  forall (revs : list rev) (v : bytes),
+  done_rev revs v = true <-> exists r, In r revs /\ r_version r = v /\ r_applied r = r_total r.
+Proof. exact (done_rev_In hash). Qed.
 
 (** (A) Never a fully applied version again: no file named by the decision (to run,
     or listed in the non-linear error) has a complete revision. *)
@@ -116,19 +123,26 @@ Theorem C11_partial_file_missing :
   (if existsb (fun f => negb (f_ckpt f)) all then PMissing (r_version (last revs r0)) else PNoPending, None).
 Proof. exact (partial_missing hash). Qed.
 
-(** The documented sentence is FALSE of the code when the partial revision is not the
-    greatest recorded version (possible with --exec-order non-linear): files 1,2,3,
-    revisions 1 complete / 2 partial / 3 complete => "no pending files".
-    (Open known finding C11-nonlinear-partial-not-resumed.) *)
-Theorem C11_partial_not_last_refuted :
-  exists (c : cfg) (all : list file) (revs : list (ExecModel.rev unit)) (r : ExecModel.rev unit) (g : file),
-    sorted_files all /\ sorted_revs revs /\ In r revs /\ r_applied r <> r_total r /\
-    In g all /\ f_ckpt g = false /\ f_version g = r_version r /\
-    pending c all revs = (PNoPending, None).
-Proof. exact partial_not_last_witness. Qed.
+(** (C4) The partially applied revision need not be the greatest recorded version (an
+    out-of-order file that failed in a previous --exec-order non-linear run): its file is
+    named too -- as an out-of-order file, which non-linear runs first and linear rejects
+    (linear-skip skips out-of-order files, as documented; see the Example). Side conditions:
+    the file of the LAST revision is not a checkpoint and, if the last revision is itself
+    partial, exists (otherwise C1 / C3 apply).
+    This was FALSE of the code before the repair of C11-nonlinear-partial-not-resumed
+    (notes/fixes/C11-nonlinear-partial-not-resumed.diff): Pending looked at the last revision only. *)
+Theorem C11_partial_not_last :
+  forall (c : cfg) (all : list file) (revs : list rev) (r0 r : rev) (g : file),
+  sorted_files all -> sorted_revs revs -> c_order c <> LinearSkip ->
+  In r revs -> r_applied r <> r_total r -> In g all -> f_ckpt g = false -> f_version g = r_version r ->
+  (forall k, In k all -> f_version k = r_version (last revs r0) -> f_ckpt k = false) ->
+  (r_applied (last revs r0) = r_total (last revs r0) \/
+   exists k, In k all /\ f_version k = r_version (last revs r0)) ->
+  In g (result_files (fst (pending c all revs))).
+Proof. exact (partial_resumed_any hash). Qed.
 
-(** ... and it holds exactly under "only the last revision may be partial": then the
-    file of every partial revision is named by the decision. *)
+(** ... and under "only the last revision may be partial" (every linear history) the file
+    of the partial revision is named under every order, checkpoint or not. *)
 Theorem C11_partial_not_last_except :
   forall (c : cfg) (all : list file) (revs : list rev) (r : rev) (g : file),
   sorted_files all -> sorted_revs revs -> only_last_partial revs ->
@@ -294,11 +308,14 @@ Proof. exact (read_revisions_sorted hash). Qed.
     [apply_plan] = the file selection of [migrateApplyRun], [migrate_set] = [migrateSetRun];
     proofs: Exec/StatusProofs.v).
 
-    (H0) A database without a revisions table is reported exactly like an empty table on a
-    clean database: in particular the report starts at the latest checkpoint, like apply. *)
+    (H0) A database without a revisions table is reported exactly like one with an empty
+    table, whatever else the database holds: in particular the report starts at the latest
+    checkpoint, like apply. (Before the repair C11-status-not-clean-empty-table the empty
+    table of a database holding other tables was refused as "not clean": Report built its
+    executor without allow-dirty although it executes nothing.) *)
 Theorem C11_status_no_table :
-  forall (dirty : bool) (all : list file) (revs : list rev),
-  report false dirty all revs = report true false all [].
+  forall (dirty dirty' : bool) (all : list file) (revs : list rev),
+  report false dirty all revs = report true dirty' all [].
 Proof. exact (report_no_table hash). Qed.
 
 (** ... spelled out: with a checkpoint in the directory the report on a never-migrated
@@ -329,7 +346,7 @@ Theorem C11_status_fields :
   forall (dirty : bool) (all : list file) (revs : list rev) (s : mstatus hash),
   report true dirty all revs = SOk s ->
   s_applied s = revs /\
-  match fst (pending (mkCfg Linear None false dirty) all revs) with
+  match fst (pending (mkCfg Linear None true dirty) all revs) with
   | PFiles p =>
       p <> [] /\ s_pending s = p /\ s_ooo s = [] /\ s_ok s = false /\
       s_next s = NextVer (f_version (hd (mkFile [] [] false) p)) /\
@@ -356,7 +373,7 @@ Proof. exact (report_no_panic hash). Qed.
 
 Theorem C11_status_error :
   forall (dirty : bool) (all : list file) (revs : list rev) (e : presult),
-  report true dirty all revs = SErr e -> fst (pending (mkCfg Linear None false dirty) all revs) = e.
+  report true dirty all revs = SErr e -> fst (pending (mkCfg Linear None true dirty) all revs) = e.
 Proof. exact (report_err hash). Qed.
 
 (** (H2) Status agrees with what apply decides, for EVERY execution order: whenever status
@@ -386,49 +403,73 @@ Theorem C11_apply_n_error :
   pending c all revs = (r, w) -> (forall p, r <> PFiles p) -> apply_plan c n all revs = (r, w).
 Proof. exact (apply_plan_error hash). Qed.
 
-(** (H4) Full statement: "after [migrate set v] no version <= v is pending":
-      forall c all revs v t' f, migrate_set (Some v) all revs = SetOk t' ->
-      In f (result_files (fst (pending c all t'))) -> bytes_leb (f_version f) v = false.
-    It is FALSE of the code: when the revision of [v] is partially applied, set marks it
-    resolved but keeps Applied < Total and Pending ignores the flag (open known finding
-    C11-set-on-partial-revision, reproduced through the CLI by the tie). *)
-Theorem C11_set_partial_refuted :
-  exists (c : cfg) (all : list file) (revs : list (ExecModel.rev unit)) (v : bytes) (g : file)
-         (t' : list (ExecModel.rev unit)) (f : file),
-    sorted_files all /\ sorted_revs revs /\ In g all /\ f_version g = v /\
-    migrate_set (Some v) all revs = SetOk t' /\
-    In f (result_files (fst (pending c all t'))) /\ bytes_leb (f_version f) v = true.
-Proof. exact set_partial_witness. Qed.
-
-(** ... and the exact characterisation that does hold, for every directory, table, version
-    of the directory and execution order: the table after set is again sorted, and a file
-    with version <= v that is still named is either (i) the file of [v] itself whose revision
-    was partially applied before the set (the finding above), or (ii) a file that was out of
-    order already before the set -- it has no revision although a later version <= v has one
-    -- which the selected execution order rejects / skips / runs first as before. *)
-Theorem C11_set_except :
-  forall (c : cfg) (all : list file) (revs : list rev) (v : bytes) (g : file) (t' : list rev) (f : file),
+(** (H4) After [migrate set v] ([v] a version of the directory) no version <= v is pending,
+    for every sorted directory, every table and every execution order: the table afterwards is
+    sorted, EVERY row is completely applied (also a row that was partially applied or had an
+    error -- it is marked "manually set" with Applied = Total), its greatest version is [v],
+    and Pending's decision is exactly [by_order o (out-of-order files below v) (files newer than v)].
+    The out-of-order files below v were out of order before the set already: they have no
+    revision although a later version <= v has one.
+    This was FALSE of the code before the repair of C11-set-on-partial-revision
+    (notes/fixes/C11-set-on-partial-revision.diff): the row of [v] kept Applied < Total and
+    Pending resumed it. *)
+Theorem C11_set :
+  forall (c : cfg) (all : list file) (revs : list rev) (v : bytes) (g : file) (t' : list rev) (r0 : rev),
   sorted_files all -> sorted_revs revs ->
   In g all -> f_version g = v ->
   migrate_set (Some v) all revs = SetOk t' ->
-  sorted_revs t' /\
-  (In f (result_files (fst (pending c all t'))) -> bytes_leb (f_version f) v = true ->
-   (f_version f = v /\ exists r, In r revs /\ r_version r = v /\ r_applied r <> r_total r) \/
-   (has_rev revs (f_version f) = false /\
-    exists r, In r revs /\ bytes_ltb (f_version f) (r_version r) = true /\ bytes_leb (r_version r) v = true)).
-Proof. exact (set_except hash). Qed.
+  sorted_revs t' /\ t' <> [] /\ (forall r, In r t' -> r_applied r = r_total r) /\
+  r_version (last t' r0) = v /\
+  pending c all t' =
+    (by_order (c_order c) (ooo_files (r_version (hd r0 t')) v t' all) (newer v all), None) /\
+  (forall f, In f (ooo_files (r_version (hd r0 t')) v t' all) ->
+     has_rev revs (f_version f) = false /\
+     exists r, In r revs /\ bytes_ltb (f_version f) (r_version r) = true /\ bytes_leb (r_version r) v = true).
+Proof. exact (set_decision hash). Qed.
+
+(** ... read as the property's sentence: a file of version <= v that is still named after the
+    set is one of those out-of-order files and the order is not linear-skip; so linear-skip --
+    and the Pending list of [migrate status], which [C11_status_agrees] ties to it -- names
+    no version <= v. *)
+Theorem C11_set_nothing_pending :
+  forall (c : cfg) (all : list file) (revs : list rev) (v : bytes) (g : file) (t' : list rev) (r0 : rev) (f : file),
+  sorted_files all -> sorted_revs revs ->
+  In g all -> f_version g = v ->
+  migrate_set (Some v) all revs = SetOk t' ->
+  In f (result_files (fst (pending c all t'))) -> bytes_leb (f_version f) v = true ->
+  c_order c <> LinearSkip /\ In f (ooo_files (r_version (hd r0 t')) v t' all).
+Proof. exact (set_nothing_pending hash). Qed.
+
+(** (H5) Whole histories (closed-loop model Exec/HistoryModel.v: [history] threads the
+    database -- table exists, rows, other resources -- through any sequence of
+    [migrate status / apply [n] --exec-order o --tx-mode m [--baseline v] [--allow-dirty]
+    [--dry-run] / set [v]] on directories that may change between the commands; statements
+    fail as an arbitrary oracle [fails] says). In every reachable state no version has two
+    rows and the reader returns a strictly sorted table: the hypothesis [sorted_revs] of the
+    theorems above holds at every step of every history, for all three transaction modes. *)
+Variable fails : bytes -> bool.
+
+Theorem C11_history_wf :
+  forall (ks : list (list file * cmd)) (d : db hash),
+  (forall all k, In (all, k) ks -> sorted_files all) ->
+  NoDup (map (@r_version hash) (db_revs d)) ->
+  Forall (fun ad => NoDup (map (@r_version hash) (db_revs (snd ad))) /\
+                    sorted_revs (db_read hash (snd ad)))
+         (history hash hash_eqb HS fails ks d).
+Proof. exact (history_wf hash hash_eqb HS fails). Qed.
 
 End C11.
 
 Print Assumptions C11_refines.
 Print Assumptions C11_newer_spec.
 Print Assumptions C11_ooo_spec.
+Print Assumptions C11_done_rev_spec.
 Print Assumptions C11_never_applied_again.
 Print Assumptions C11_all_newer_pending.
 Print Assumptions C11_partial_first_checkpoint.
 Print Assumptions C11_partial_first.
 Print Assumptions C11_partial_file_missing.
-Print Assumptions C11_partial_not_last_refuted.
+Print Assumptions C11_partial_not_last.
 Print Assumptions C11_partial_not_last_except.
 Print Assumptions C11_first_run_checkpoint.
 Print Assumptions C11_first_run_cases.
@@ -453,8 +494,9 @@ Print Assumptions C11_status_error.
 Print Assumptions C11_status_agrees.
 Print Assumptions C11_apply_n.
 Print Assumptions C11_apply_n_error.
-Print Assumptions C11_set_partial_refuted.
-Print Assumptions C11_set_except.
+Print Assumptions C11_set.
+Print Assumptions C11_set_nothing_pending.
+Print Assumptions C11_history_wf.
 
 (** * Non-vacuity: concrete directories / tables meeting the hypotheses. *)
 Definition xf (v : N) (ck : bool) : file := mkFile [v] [[65%N]; [66%N]] ck.
@@ -528,6 +570,15 @@ Example C11_partial_file_missing_nonvacuous :
   pending (cfg_of Linear) [k2] [xr 51 1 2] = (PNoPending, None).
 Proof. vm_compute. auto. Qed.
 
+(** (C4) files 1,2,3; revisions 1 complete, 2 partial (1/3), 3 complete *)
+Example C11_partial_not_last_nonvacuous :
+  pending (mkCfg NonLinear None false false) w_files w_revs =
+    (PFiles [mkFile [50%N] [[65%N]; [66%N]; [67%N]] false], None) /\
+  pending (mkCfg Linear None false false) w_files w_revs =
+    (PNonLinear [mkFile [50%N] [[65%N]; [66%N]; [67%N]] false] [], None) /\
+  pending (mkCfg LinearSkip None false false) w_files w_revs = (PNoPending, None).
+Proof. vm_compute. repeat split; reflexivity. Qed.
+
 Example C11_partial_not_last_except_nonvacuous :
   In f3 (result_files (fst (pending (cfg_of Linear) ex_all ex_revs_p))).
 Proof. vm_compute. auto. Qed.
@@ -573,7 +624,7 @@ Example C11_status_no_table_nonvacuous :
   let s := st_of (report false true ex_ck []) in
   s_pending s = [k3; f4] /\ s_available s = [k3; f4] /\ s_next s = NextVer [51%N] /\
   s_current s = CurNone /\ s_ok s = false /\
-  report (hash := unit) true true ex_ck [] = SErr PNotClean.
+  report (hash := unit) true true ex_ck [] = report false false ex_ck [].
 Proof. vm_compute. repeat split; reflexivity. Qed.
 
 Example C11_status_fresh_checkpoint_nonvacuous :
@@ -616,8 +667,9 @@ Example C11_apply_n_nonvacuous :
 Proof. vm_compute. repeat split; reflexivity. Qed.
 
 (** set 3 on revisions 1, 4 (2 and 3 never applied): 4 is deleted, 2 and 3 are recorded;
-    set 4 on revisions 1, 4: nothing changes and 2, 3 stay out of order (case ii);
-    set 3 on a partially applied 3 (case i). *)
+    set 4 on revisions 1, 4: nothing changes and 2, 3 stay out of order;
+    set 3 on a partially applied 3: the row becomes 2/2 "applied + manually set", only 4 is left;
+    set 4 above a partially applied 3: that row is resolved too. *)
 Example C11_set_nonvacuous :
   migrate_set (Some [51%N]) ex_all [xr 49 2 2; xr 52 2 2] =
     SetOk [xr 49 2 2; mkRev [50%N] 0 0 [] false 4%N; mkRev [51%N] 0 0 [] false 4%N] /\
@@ -625,10 +677,37 @@ Example C11_set_nonvacuous :
     = PFiles [f4] /\
   migrate_set (Some [52%N]) ex_all [xr 49 2 2; xr 52 2 2] = SetOk [xr 49 2 2; xr 52 2 2] /\
   fst (pending (cfg_of Linear) ex_all [xr 49 2 2; xr 52 2 2]) = PNonLinear [f2; f3] [] /\
-  migrate_set (Some [51%N]) ex_all ex_revs_p = SetOk [xr 49 2 2; mkRev [51%N] 1 2 [] false 6%N] /\
-  fst (pending (cfg_of LinearSkip) ex_all [xr 49 2 2; mkRev [51%N] 1 2 [] false 6%N]) = PFiles [f3; f4] /\
+  ooo_files [49%N] [52%N] [xr 49 2 2; xr 52 2 2] ex_all = [f2; f3] /\
+  migrate_set (Some [51%N]) ex_all ex_revs_p = SetOk [xr 49 2 2; mkRev [51%N] 2 2 [] false 6%N] /\
+  fst (pending (cfg_of LinearSkip) ex_all [xr 49 2 2; mkRev [51%N] 2 2 [] false 6%N]) = PFiles [f4] /\
+  migrate_set (Some [52%N]) ex_all ex_revs_p =
+    SetOk [xr 49 2 2; mkRev [51%N] 2 2 [] false 6%N; mkRev [52%N] 0 0 [] false 4%N] /\
+  migrate_set (Some [49%N]) [ws_file] [ws_rev] = SetOk [mkRev [49%N] 2 2 [tt] true 6%N] /\
+  pending (cfg_of Linear) [ws_file] [mkRev [49%N] 2 2 [tt] true 6%N] = (PNoPending, None) /\
   migrate_set (Some [57%N]) ex_all ex_revs = SetNotFound /\
   migrate_set (hash := unit) None ex_all [] = SetArgs /\
   migrate_set None ex_all [xr 49 2 2] =
     SetOk [xr 49 2 2; mkRev [50%N] 0 0 [] false 4%N; mkRev [51%N] 0 0 [] false 4%N; mkRev [52%N] 0 0 [] false 4%N].
+Proof. vm_compute. repeat split; reflexivity. Qed.
+
+(** (H5) a history on a never-touched database: apply --tx-mode none fails in file 2
+    (second statement is rejected), status, set 2, apply *)
+Definition hx_fails (s : bytes) : bool := bytes_eqb s [68%N].
+Definition hx_dir : list file := [mkFile [49%N] [[65%N]] false; mkFile [50%N] [[67%N]; [68%N]] false; f3].
+Example C11_history_nonvacuous :
+  let h := history bytes bytes_eqb (fun b => b) hx_fails
+             [ (hx_dir, CApply Linear None false 0 TxNone false);
+               (hx_dir, CStatus);
+               (hx_dir, CSet (Some [50%N]));
+               (hx_dir, CApply Linear None false 0 TxFile false) ]
+             (mkDb false false []) in
+  map (fun ad => map (fun r => (r_version r, r_applied r, r_total r)) (db_read bytes (snd ad))) h =
+    [ [([49%N], 1, 1); ([50%N], 1, 2)];
+      [([49%N], 1, 1); ([50%N], 1, 2)];
+      [([49%N], 1, 1); ([50%N], 2, 2)];
+      [([49%N], 1, 1); ([50%N], 2, 2); ([51%N], 2, 2)] ] /\
+  match nth_error h 1 with
+  | Some (AStatus (SOk s), _) => s_pending s = [mkFile [50%N] [[67%N]; [68%N]] false; f3] /\ s_count s = 1 /\ s_total s = 2
+  | _ => False
+  end.
 Proof. vm_compute. repeat split; reflexivity. Qed.
